@@ -70,8 +70,13 @@ def explore_chain(job):
     t0 = time.time()
     out = {'name': job['name'], 'family': job['family'], 'mode': job['mode'], 'nodes': job['nodes'], 'edges': job['edges']}
     try:
-        fn = chain.run_reeval_instance if job['family'] == 'H-EVAL2' else chain.run_resume_instance
-        st, viols = fn(_MOD, [tuple(n) for n in job['nodes']], [tuple(e) for e in job['edges']], job['mode'], deadline=job.get('deadline'))
+        if job['family'] == 'H-IND':
+            from . import ind
+            st, viols = ind.run_c01_instance(_MOD, [tuple(n) for n in job['nodes']], [tuple(e) for e in job['edges']], job['mode'],
+                                             deadline=job.get('deadline'), stale=job.get('stale', ()))
+        else:
+            fn = chain.run_reeval_instance if job['family'] == 'H-EVAL2' else chain.run_resume_instance
+            st, viols = fn(_MOD, [tuple(n) for n in job['nodes']], [tuple(e) for e in job['edges']], job['mode'], deadline=job.get('deadline'))
         groups = {}
         for v in viols:
             gk = group_key(v['prop'], v['what'])
@@ -80,7 +85,8 @@ def explore_chain(job):
             v['universe'] = job['name']
             if len(g['examples']) < 2:
                 g['examples'].append(v)
-        ms = {k: st[k] for k in st if k in ('first_finals', 'second_explorations', 'interrupted_finals', 'uninterrupted_finals', 'pairs', 'pairs_solver')}
+        ms = {k: st[k] for k in st if k in ('first_finals', 'second_explorations', 'interrupted_finals', 'uninterrupted_finals', 'pairs', 'pairs_solver',
+                                           'unsound_finals', 'followups', 'followups_without_wrong_result')}
         out.update({'ok': True, 'states': st['states'], 'transitions': st['transitions'], 'events': st['events'], 'forks': 0,
                     'finals': st['finals'], 'capped': st['capped'], 'solver': st['solver'], 'by_eval': 0,
                     'obligations': st['obligations'], 'discharged': st['discharged'], 'groups': groups, 'samples': [],
@@ -96,7 +102,7 @@ def explore_universe(job):
     """worker: job = dict(family, nodes, edges, mode, name, deadline, opts)"""
     if job['family'] == 'H-ORDER':
         return explore_order(job)
-    if job['family'] in ('H-EVAL2', 'H-RESUME'):
+    if job['family'] in ('H-EVAL2', 'H-RESUME', 'H-IND'):
         return explore_chain(job)
     t0 = time.time()
     out = {'name': job['name'], 'family': job['family'], 'mode': job['mode'], 'nodes': job['nodes'], 'edges': job['edges']}
@@ -189,6 +195,21 @@ def universes(family, tier, seed):
             jobs.append({'family': 'H-HIST', 'nodes': nodes, 'edges': edges, 'mode': 'prod', 'stale': stale, 'inputs': inputs})
         for i, j in enumerate(jobs):
             j['name'] = 'h%d_%s_%s' % (i, j['mode'], '+'.join(n for n, _ in j['nodes']))
+        return jobs
+    if family == 'H-IND':
+        jobs = []
+        for n in (1, 2, 3):
+            for nodes, edges in H.all_instances(n):
+                for mode in ('ident', 'rel'):
+                    jobs.append({'family': family, 'nodes': nodes, 'edges': edges, 'mode': mode})
+        for nodes, edges in CURATED4:
+            for mode in (['ident', 'rel'] if tier == 'thorough' else ['ident']):
+                jobs.append({'family': family, 'nodes': nodes, 'edges': edges, 'mode': mode})
+        for nodes, edges, stale in HIST_CASES:
+            jobs.append({'family': family, 'nodes': nodes, 'edges': edges, 'mode': 'ident', 'stale': stale})
+        for i, j in enumerate(jobs):
+            j['name'] = 'ind%d_%s_%s' % (i, j['mode'], ''.join(k[0] for _, k in j['nodes']) + '_' + ''.join('%s%s' % (u, d) for d, u in j['edges']))
+        jobs.sort(key=lambda j: -len(j['nodes']) * 10 - len(j['edges']))
         return jobs
     if family in ('H-EVAL2', 'H-RESUME'):
         jobs = []
